@@ -150,10 +150,11 @@ def proof_step(pid, cfg, ev):
                 f.write(f"#print axioms {n}\n")
         rc, out, dt = run(["lake", "env", "lean", audit], cwd=LEAN, timeout=1200)
         axioms = {}
-        cur = None
-        for m in re.finditer(r"'([^']+)' depends on axioms: \[([^\]]*)\]|'([^']+)' does not depend on any axioms", out):
+        # one message per theorem; names may themselves contain apostrophes (foo', map'_x)
+        flat = out.replace("\n", " ")
+        for m in re.finditer(r"'(\S+?)' depends on axioms: \[([^\]]*)\]|'(\S+?)' does not depend on any axioms", flat):
             if m.group(1):
-                axioms[m.group(1)] = [a.strip() for a in m.group(2).replace("\n", " ").split(",") if a.strip()]
+                axioms[m.group(1)] = [a.strip() for a in m.group(2).split(",") if a.strip()]
             else:
                 axioms[m.group(3)] = []
         if rc != 0 or len(axioms) < len(names):
